@@ -1154,14 +1154,18 @@ Fixpoint gscan (eq : val -> val -> result bool) (i : nat) (l : list val) (acc : 
 Definition groups_val (gs : list (val * list nat)) : val :=
   VL (map (fun kg => VL (map (fun i => VI (Z.of_nat i)) (snd kg))) gs).
 
+(* the members that no earlier member equals, in order (np.unique + argsort of the first indices) *)
+Definition firsts {K} (eqb : K -> K -> bool) (d : K) (l : list K) : list K :=
+  flat_map (fun j => if existsb (fun i => eqb (nth j l d) (nth i l d)) (seq 0 j) then [] else [nth j l d]) (seq 0 (List.length l)).
+
 (* np.unique with return_index on a sortable 1-D array (order of first appearance since the fix: commit), the scan otherwise *)
 Definition m_group (a : val) : res :=
   match a with
   | VS [] | VL [] => Ok (VL [])
-  | VS s => Ok (VL (map (fun k => VL (positions_of Z.eqb k 0 s)) (dedup_by Z.eqb [] s)))
+  | VS s => Ok (VL (map (fun k => VL (positions_of Z.eqb k 0 s)) (firsts Z.eqb 0 s)))
   | VL l =>
       match rshape a with
-      | Some [_] => Ok (VL (map (fun k => VL (positions_of num_eqb k 0 l)) (dedup_by num_eqb [] l)))
+      | Some [_] => Ok (VL (map (fun k => VL (positions_of num_eqb k 0 l)) (firsts num_eqb VU l)))
       | _ => bind (gscan (fun k x => kg_equal (fuel2 k x) k x) 0 l []) (fun gs => Ok (groups_val gs))
       end
   | _ => Unmod
@@ -1190,7 +1194,24 @@ Definition m_range (a0 : val) : res :=
   let a := match a0 with VC c => VS [c] | VY s => VS s | _ => a0 end in   (* KGChar, KGSym are str *)
   match a with
   | VS s => Ok (VS (dedup_by Z.eqb [] s))      (* ''.join(dict.fromkeys(a)) *)
-  | VL l => if canonical a then Ok (norm (VL (dedup_by val_same [] l))) else Unmod
+  | VL l =>
+      if negb (canonical a) then Unmod else
+      match rshape a with
+      | Some _ => Ok (norm (VL (dedup_by val_same [] l)))         (* numeric array: the printed forms differ iff the values do *)
+      | None =>
+          (* object array: a member is kept unless it matches (kg_equal) a member kept before (fix: commit) *)
+          bind ((fix go (l kept : list val) : result (list val) :=
+                   match l with
+                   | [] => Ok (rev kept)
+                   | x :: r => bind ((fix any (ks : list val) : result bool :=
+                                        match ks with
+                                        | [] => Ok false
+                                        | y :: ks' => bind (kg_equal (fuel2 x y) x y) (fun e => if e then Ok true else any ks')
+                                        end) (rev kept))
+                                    (fun seen => if seen then go r kept else go r (x :: kept))
+                   end) l [])
+               (fun r => Ok (norm (VL r)))
+      end
   | _ => Ok a
   end.
 
